@@ -104,3 +104,16 @@ Definition sim_run (pl : list row) (now : nat -> Q) (until : option Q) (s : sims
        else Ok (mkSS i c false (s_ready s) (s_scaled s)).
 Definition sim_finalize (s : simstate) : res simstate :=
   if s_ready s then Err EAlreadyRun else Ok (mkSS (s_idx s) (s_clk s) (s_complete s) true (S (s_scaled s))).
+
+(* ---- Loop.collect_abs_tvecs keys the time vectors by the owner's NAME (a string), not by the module: the vector used for module `id` is that of the
+   LAST module in the list carrying the same name.  `name : nat -> nat` gives the name of each module id. *)
+Fixpoint find_last_named (name : nat -> nat) (mods : list modl) (nm : nat) : option modl :=
+  match mods with
+  | [] => None
+  | m :: t => match find_last_named name t nm with Some m' => Some m' | None => if Nat.eqb (name (m_id m)) nm then Some m else None end
+  end.
+Definition owner_tvec_by_name (name : nat -> nat) (sim_tvec : list Q) (mods : list modl) (o : owner) : list Q :=
+  match o with
+  | OSim | OPeople => sim_tvec
+  | OMod id => match find_last_named name mods (name id) with Some m => m_tvec m | None => [] end
+  end.
